@@ -905,6 +905,7 @@ class _CopyFromZipFileExecutor:
             _mkdir_p(os.path.dirname(fn_dst))
             with open(fn_dst, "wb") as dst:
                 dst.write(self.zipfile.read(name))
+        self.job.init()
         return self.job.path
 
     def __str__(self):
